@@ -43,8 +43,8 @@ def cache(level_text, design_ref, lockstep=False):
         "jobs": [CACHEX] + ([LOCKSTEP] if lockstep else []),
         "level": "model_checking",
         "level_text": level_text,
-        "level_note": "trusts the per-key register model and the residency dump of hook verif::dump; sequential histories only (see lockstep for interleavings); depth and alphabets as reported per scenario",
-        "technique": "stateless exhaustive DFS over operation/clock/maintenance histories of the real cache vs reference model",
+        "level_note": "trusts the per-key register model and the residency dump of hook verif::dump; cachex explores sequential histories of the Cache and AsyncCache handles (depth and alphabets as reported per scenario)" + ("; lockstep explores schedules of 2-3 real threads/tasks with scheduling points at every hybrid-lock acquisition (sync and async forms), park/unpark/spawn in the loader path; code between two points is an atomic block" if lockstep else "; interleavings are not explored for this property"),
+        "technique": "stateless exhaustive DFS over operation/clock/maintenance histories of the real cache vs reference model" + ("; stateless exhaustive DFS over thread schedules under a controlled scheduler with iterative preemption bounding" if lockstep else ""),
         "design_ref": design_ref,
         "rule": CACHE_RULE,
         "assumptions": CACHE_ASSUME,
@@ -97,7 +97,7 @@ CHECKS = {
         "assumptions": ["single thread; async receivers are driven through try_recv (their futures are covered by the mailbox unit of C06 only)"],
     },
     "C09": chan("drop ledger after every explored history and every teardown order in the alphabet: each payload instance dropped exactly once; the quick space is re-run under AddressSanitizer in the thorough tier", "§4 C09, §2 E2", extra_jobs=(SEQX_ASAN,)),
-    "C11": cache("every read API on every explored history returns nothing or the latest live value of its own key; or_insert inserts at most once; compute applies once", "§5 C11"),
+    "C11": cache("every read API on every explored history (Cache and AsyncCache handles, bulk and entry/compute forms) returns nothing or the latest live value of its own key; or_insert inserts at most once; compute applies once; lockstep: every schedule (preemption bound 2/3) of insert/remove/invalidate/compute/or_insert/clear racing reads is linearizable against the per-key register", "§5 C11, §2 E3", lockstep=True),
     "C12": cache("every read API at every explored virtual time: never an entry at/after its expiry; unbounded caches never lose a live entry however many maintenance passes run", "§5 C12"),
     "C13": cache("after every step of every explored history current_cost equals the resident cost, and after maintenance the resident cost is within capacity, for all eight policies; lockstep: the same quiescent oracle after every schedule of user operations racing the janitor", "§5 C13, §2 E3", lockstep=True),
     "C16": cache("after every step the listener's notifications are matched against the residency diff: truthful, right reason, never twice, none missing; lockstep: same after every schedule of removals racing eviction", "§5 C16, §2 E3", lockstep=True),
@@ -105,8 +105,8 @@ CHECKS = {
     "C15": {
         "jobs": [LOCKSTEP],
         "level": "model_checking",
-        "level_text": "every critical-section interleaving (preemption bound 2 quick / 3 thorough) of 2–3 fetch_with callers and the loader thread the cache spawns: loader invocations per miss generation, returned values, residency, no caller parked forever",
-        "level_note": "scheduling points are the hybrid-lock acquisitions, thread::park/unpark/spawn in the loader path (hook H3) and two points inside the harness loader body; code between two points is an atomic block; sync Cache handle and sync loader only",
+        "level_text": "every critical-section interleaving (preemption bound 2 quick / 3 thorough) of 2–3 fetch_with callers (threads on the Cache handle, tasks on the AsyncCache handle, mixed) and the loader thread or async loader task the cache spawns: loader invocations per miss generation, returned values, residency, no caller parked forever",
+        "level_note": "scheduling points are the hybrid-lock acquisitions, thread::park/unpark/spawn in the loader path (hook H3) and two points inside the harness loader body; code between two points is an atomic block; async tasks run one per OS thread under the same scheduler (a Pending poll parks the thread in the scheduler, its waker makes it runnable)",
         "technique": "stateless exhaustive DFS over schedules of real threads under a controlled scheduler with iterative preemption bounding",
         "design_ref": "§5 C15, §2 E3",
         "rule": "all schedules with ≤ bound preemptions of the programs listed in the scenarios (2–3 callers, same key / same stripe / two shards, after invalidation, stale-within-grace); every schedule re-executed on a fresh cache; non-trivial = operations of two threads overlap",
